@@ -1112,8 +1112,10 @@ fn same_sample(a: f32, b: f32, exact: bool) -> bool {
         // +0.0 / -0.0 are the same sample value
         return a == b;
     }
-    // the property's tolerance; samples are nominally in [0, 1]
-    (a - b).abs() <= 1e-6
+    // the property's tolerance (1e-6 for samples nominally in [0, 1]); for samples far outside the
+    // nominal range (straight-alpha division by a tiny mixed alpha gives magnitudes of 10..1000) an
+    // absolute 1e-6 is below one ulp of f32, so the tolerance scales with the magnitude
+    (a - b).abs() <= 1e-6 * a.abs().max(b.abs()).max(1.0)
 }
 
 /// Compare a region render with the rectangle `r` (oriented coordinates) of the full render.
